@@ -6,7 +6,10 @@ sys.path.insert(0, HERE)
 from fcv import gen_tables, leanproc  # noqa: E402
 
 def main() -> int:
-    gen_tables.regenerate()
+    status = gen_tables.regenerate()
+    bad = {n: st for n, st in status.items() if st not in ("same",)}
+    if bad:
+        print("setup: note: table renderings differ from the frozen ones (lean/FcGen/lastgood):", bad)
     rc = subprocess.call(["lake", "build", "FcModel", "Driver", "fcdrv", "FcProofs"], cwd=leanproc.LEAN_DIR)
     if rc != 0:
         print("setup: lake build failed")
